@@ -54,6 +54,7 @@ type Obligation struct {
 	textCVC  string
 	nvals    int
 	subs     []subQuery
+	full     *smt.Query
 	Cases    int
 	FailText string
 }
@@ -158,9 +159,13 @@ func (w *World) Generate(h *Harness) (res *HarnessResult) {
 	e := newEngine(w, h)
 	res = &HarnessResult{Harness: h, engine: e}
 	defer func() {
+		e.session.Close()
 		res.ExecSec = time.Since(t0).Seconds()
 		res.Steps = e.steps
 		res.Reads = e.M.reads
+		if e.feasN > 0 {
+			e.note("feasibility checks: %d solver calls, %.1fs", e.feasN, e.feasSec)
+		}
 		res.Notes = e.notes
 		for k := range e.trusted {
 			res.Trusted = append(res.Trusted, k)
@@ -233,8 +238,8 @@ func (o *Obligation) Query(withValues bool) *smt.Query {
 }
 
 type subQuery struct {
-	textStd, textCVC string
-	redStd           string // cone-of-influence reduced query (only an unsat answer counts)
+	q   *smt.Query
+	red *smt.Query // cone-of-influence reduced query (only an unsat answer counts)
 }
 
 // cubes expands the disjunctive literals of the path condition (they come from joins of control-flow paths) into
@@ -422,7 +427,7 @@ func (o *Obligation) Prepare() {
 					continue
 				}
 				sq.Asserts = append(sq.Asserts, cube...)
-				sub := subQuery{textStd: c.Print(sq, false), textCVC: c.Print(sq, true)}
+				sub := subQuery{q: sq}
 				if ng := c.AssumeTrue(c.Not(o.Goal), cube); !ng.IsFalse() {
 					var rest []*smt.Term
 					for _, a := range sq.Asserts {
@@ -432,8 +437,7 @@ func (o *Obligation) Prepare() {
 					}
 					red := relevant(rest, ng)
 					if len(red) < len(rest) {
-						rq := &smt.Query{Asserts: append(red, ng)}
-						sub.redStd = c.Print(rq, false)
+						sub.red = &smt.Query{Asserts: append(red, ng)}
 					}
 				}
 				o.subs = append(o.subs, sub)
@@ -443,7 +447,7 @@ func (o *Obligation) Prepare() {
 				o.Status = "discharged"
 				o.Solver = "simplifier"
 			}
-			o.textStd = c.Print(q, false)
+			o.full = q
 			return
 		}
 	}
@@ -468,7 +472,7 @@ func (o *Obligation) Prepare() {
 					continue
 				}
 				sq.Asserts = append(sq.Asserts, cube...)
-				o.subs = append(o.subs, subQuery{textStd: c.Print(sq, false), textCVC: c.Print(sq, true)})
+				o.subs = append(o.subs, subQuery{q: sq})
 				if len(o.subs) >= 6 {
 					break
 				}
@@ -476,8 +480,7 @@ func (o *Obligation) Prepare() {
 			o.Cases = len(cubes)
 		}
 	}
-	o.textStd = c.Print(q, false)
-	o.textCVC = c.Print(q, true)
+	o.full = q
 }
 
 // Discharge runs the solvers on one prepared obligation (safe to call concurrently).
@@ -487,7 +490,7 @@ func (o *Obligation) Discharge(solvers []smt.SolverSpec, dir string, timeoutSec,
 	}
 	if len(o.subs) > 0 && o.Kind == KindCover {
 		for i, s := range o.subs {
-			r := smt.SolveText(s.textStd, s.textCVC, 0, solvers, dir, fmt.Sprintf("%s.cover%d", o.Name, i), timeoutSec, 1)
+			r := smt.SolveText(o.ctx.C.Print(s.q, false), o.ctx.C.Print(s.q, true), 0, solvers, dir, fmt.Sprintf("%s.cover%d", o.Name, i), timeoutSec, 1)
 			o.Seconds += r.Seconds
 			if r.Status == smt.Sat {
 				o.Status, o.Solver = "covered", r.Solver+" (one path case)"
@@ -509,15 +512,15 @@ func (o *Obligation) Discharge(solvers []smt.SolverSpec, dir string, timeoutSec,
 				defer wg.Done()
 				sem <- struct{}{}
 				defer func() { <-sem }()
-				if s.redStd != "" && need == 1 {
-					r := smt.SolveText(s.redStd, "", 0, solvers[:1], dir, fmt.Sprintf("%s.case%d.coi", o.Name, i), 5, 1)
+				if s.red != nil && need == 1 {
+					r := smt.SolveText(o.ctx.C.Print(s.red, false), "", 0, solvers[:1], dir, fmt.Sprintf("%s.case%d.coi", o.Name, i), 5, 1)
 					if r.Status == smt.Unsat {
 						r.Solver += "/coi"
 						results[i] = r
 						return
 					}
 				}
-				results[i] = smt.SolveText(s.textStd, s.textCVC, o.nvals, solvers, dir, fmt.Sprintf("%s.case%d", o.Name, i), timeoutSec, need)
+				results[i] = smt.SolveText(o.ctx.C.Print(s.q, false), o.ctx.C.Print(s.q, true), o.nvals, solvers, dir, fmt.Sprintf("%s.case%d", o.Name, i), timeoutSec, need)
 			}(i, s)
 		}
 		wg.Wait()
@@ -532,7 +535,7 @@ func (o *Obligation) Discharge(solvers []smt.SolverSpec, dir string, timeoutSec,
 			case smt.Sat:
 				o.Status = "failed"
 				o.Output = r.Output
-				o.FailText = s.textStd
+				o.FailText = o.ctx.C.Print(s.q, false)
 				o.Model = map[string]string{}
 				for j, in := range o.Inputs {
 					if j < len(r.Values) {
@@ -558,7 +561,8 @@ func (o *Obligation) Discharge(solvers []smt.SolverSpec, dir string, timeoutSec,
 		o.Solver = fmt.Sprintf("%s (%d of %d path cases)", strings.Join(names, "+"), len(o.subs), o.Cases)
 		return
 	}
-	r := smt.SolveText(o.textStd, o.textCVC, o.nvals, solvers, dir, o.Name, timeoutSec, need)
+	o.textStd = o.ctx.C.Print(o.full, false)
+	r := smt.SolveText(o.textStd, o.ctx.C.Print(o.full, true), o.nvals, solvers, dir, o.Name, timeoutSec, need)
 	o.Solver, o.Seconds, o.Output, o.Others = r.Solver, r.Seconds, r.Output, r.Others
 	switch {
 	case o.Kind == KindCover && r.Status == smt.Sat:
@@ -587,7 +591,66 @@ func (o *Obligation) SMT() string {
 	if o.FailText != "" {
 		return o.FailText
 	}
+	if o.textStd == "" && o.full != nil {
+		o.textStd = o.ctx.C.Print(o.full, false)
+	}
 	return o.textStd
+}
+
+// Bundle is a group of consecutive automatic safety obligations of one harness decided by a single query:
+// "some member fails" must be unsatisfiable. If it is not, the members are decided one by one.
+type Bundle struct {
+	Members []*Obligation
+	q       *smt.Query
+}
+
+// BundleSafety groups the not yet decided safety obligations (those without path-case splitting).
+func BundleSafety(obls []*Obligation, max int) []*Bundle {
+	var out []*Bundle
+	var cur *Bundle
+	flush := func() {
+		if cur != nil && len(cur.Members) > 1 {
+			e := cur.Members[0].ctx
+			c := e.C
+			var alts []*smt.Term
+			for _, m := range cur.Members {
+				alts = append(alts, c.And(append(append([]*smt.Term{}, m.PC...), c.Not(m.Goal))...))
+			}
+			q := &smt.Query{}
+			q.Asserts = append(q.Asserts, e.axioms...)
+			q.Asserts = append(q.Asserts, c.Or(alts...))
+			cur.q = q
+			out = append(out, cur)
+		}
+		cur = nil
+	}
+	for _, o := range obls {
+		if o.Kind != KindSafety || o.Status != "" || len(o.subs) > 0 || o.full == nil {
+			continue
+		}
+		if cur != nil && (cur.Members[0].ctx != o.ctx || len(cur.Members) >= max) {
+			flush()
+		}
+		if cur == nil {
+			cur = &Bundle{}
+		}
+		cur.Members = append(cur.Members, o)
+	}
+	flush()
+	return out
+}
+
+// Discharge decides a bundle; on success every member is discharged.
+func (b *Bundle) Discharge(solvers []smt.SolverSpec, dir string, timeoutSec int) {
+	e := b.Members[0].ctx
+	r := smt.SolveText(e.C.Print(b.q, false), "", 0, solvers[:1], dir, b.Members[0].Name+".bundle", timeoutSec, 1)
+	if r.Status == smt.Unsat {
+		for _, m := range b.Members {
+			m.Status = "discharged"
+			m.Solver = r.Solver + fmt.Sprintf(" (bundle of %d)", len(b.Members))
+			m.Seconds = r.Seconds / float64(len(b.Members))
+		}
+	}
 }
 
 func (o *Obligation) Engine() *Engine { return o.ctx }
